@@ -56,9 +56,10 @@ def run(tier, seed, t0):
     def extra(tier_, seed_):
         rng = random.Random("c20-%d" % seed_)
         if tier_ == "quick":
-            sc = scenarios.batches(rng, 3, ["plain", "consumer"]) + scenarios.batches(rng, 4, ["listener"])[::3]
+            sc = scenarios.batches(rng, 3, ["plain", "consumer", "pressure"]) + scenarios.batches(rng, 4, ["listener"])[::3]
         else:
-            sc = scenarios.batches(rng, 4, ["plain", "consumer", "listener"], reps=3)
+            sc = scenarios.batches(rng, 4, ["plain", "consumer", "listener"], reps=3) + \
+                scenarios.batches(rng, 4, ["pressure"], reps=2)
         return sc
 
     vlib.build_harness()
@@ -89,7 +90,7 @@ def run(tier, seed, t0):
         PROP, tier, seed, t0, mc, traces_validated=summ["scenarios"], evaluations=len(scn), distinct=distinct,
         rule="every ordered selection of 1..%d distinct events from {server connection close, server channel close, "
              "channel-0 request (open_channel / listen_for_connection_blocked / Connection::close), request on the closed "
-             "channel, request on another channel} x base state {plain, consumers attached, listeners registered}: the I/O "
+             "channel, request on another channel} x base state {plain, consumers attached, listeners registered, a tiny high-water mark that the batch's publish crosses}: the I/O "
              "thread is parked before poll (hook gate), the events are made pending in exactly that order (mio's readiness "
              "queue is FIFO; client requests are confirmed enqueued through hook events), then handled in one wake-up; "
              "afterwards every handle is used again and the connection closed; plus closes that cross on the wire: the "
